@@ -53,15 +53,31 @@ def functions(text):
     return out
 
 
-def changed():
-    """[(function, file)] whose translation differs from that of the pinned tree"""
+def current_text(out):
+    """the translation of this run: <out>.partial when the translator stopped in some function (it then holds the
+    functions that could still be translated), <out> otherwise"""
+    p = out + ".partial"
+    return open(p if os.path.exists(p) else out).read()
+
+
+def failed_functions(detail):
+    """[(function, file)] named by the translator's error messages (one message per failing function)"""
+    return sorted(set((m.group(2), m.group(1)) for m in re.finditer(r"/(\w+\.go):\d+ \(function (\w+)\)", detail or "")))
+
+
+def changed_vs(out, ref):
+    """[(function, file)] whose translation differs from that of the pinned tree, or that could not be translated"""
     try:
-        cur, ref = functions(open(OUT).read()), functions(open(REF).read())
+        cur, reft = functions(current_text(out)), functions(open(ref).read())
     except FileNotFoundError:
         return []
-    ch = [(n, f) for n, (f, t) in cur.items() if n not in ref or ref[n][1] != t]
-    ch += [(n, ref[n][0]) for n in ref if n not in cur]
+    ch = [(n, f) for n, (f, t) in cur.items() if n not in reft or reft[n][1] != t]
+    ch += [(n, reft[n][0]) for n in reft if n not in cur]
     return sorted(set(ch))
+
+
+def changed():
+    return changed_vs(OUT, REF)
 
 
 def src_obligations(res, pid):
@@ -73,14 +89,17 @@ def src_obligations(res, pid):
                              "model re-proved (Vedirect/DrvRefine.v, DrvProps.v); this property carries the obligations of %s"
                              % ", ".join("vedirect/" + a for a in anchors))
     if BROKEN is not None:
-        m = re.search(r"vedirect/(\w+\.go):(\d+) \(function (\w+)\)", BROKEN.detail)
-        f = m.group(1) if m else None
+        # every function the translator stopped in, and every other function whose translation changed
+        ch = sorted(set(failed_functions(BROKEN.detail)) | set(changed()))
         res.cov["obligations"] = res.cov.get("obligations", 0) + len(ths)
-        if f is None or f in anchors:
-            res.broken.append(BROKEN)
+        res.cov["changed_source_functions"] = ["%s (%s)" % c for c in ch]
+        mine = [c for c in ch if c[1] in anchors]
+        if mine or not ch:
+            res.broken.append(Broken(BROKEN.what + "; changed or untranslatable in this property's anchor files: %s"
+                                     % (", ".join("%s in vedirect/%s" % c for c in mine) or "?"), BROKEN.detail))
         else:
-            res.partial.append("source tie not re-established on this run: the translator stopped in vedirect/%s, which this property's "
-                               "anchors do not name (reported by the properties anchored there)" % f)
+            res.partial.append("source tie not re-established on this run: changed or untranslatable %s, outside this property's anchor "
+                               "files (reported by the properties anchored there)" % ", ".join("%s in vedirect/%s" % c for c in ch))
         return False
     try:
         ob, di, rep, cmd, dt = common.prove(pid + "src", ths)
